@@ -37,11 +37,15 @@ def subdivideChecked (num chunks : Nat) : Option (List Nat) :=
 /-- the contract the rest of the mesh code relies on: positive sizes with the right sum -/
 def Contract (sizes : List Nat) (num : Nat) : Prop := (∀ s ∈ sizes, 0 < s) ∧ sizes.sum = num
 
+instance (sizes : List Nat) (num : Nat) : Decidable (Contract sizes num) := by unfold Contract; infer_instance
+
 /-- executable form of `Contract` -/
 def contractB (sizes : List Nat) (num : Nat) : Bool := sizes.all (fun s => decide (0 < s)) && sizes.sum == num
 
-/-- sizes differ by at most one -/
-def balancedB (sizes : List Nat) : Bool := sizes.all fun a => sizes.all fun b => decide (a ≤ b + 1)
+/-- sizes differ by at most one: every size is at most the smallest one plus one -/
+def balancedB (sizes : List Nat) : Bool :=
+  let lo := sizes.foldl min (sizes.headD 0)
+  sizes.all fun a => decide (a ≤ lo + 1)
 
 /-! ## per-axis slices (`_get_data_indices_1d`) -/
 
